@@ -370,7 +370,9 @@ static int print_f(void (*printchar_handler)(void *d, int c),
 
     len = (int)(end - str);
     postfix_len = (int)strlen(postfix);
-    zero_left = is_shortened ? 0 : precision - sign_count;
+    zero_left = is_shortened && !(ops & OPS_FLAG_WITH_SPEC)
+                    ? 0
+                    : MAX(precision - sign_count, 0);
     pad_count = MAX(width - prefix_len - len - zero_left - postfix_len, 0);
 
     if (!(ops & (OPS_FLAG_ZERO_PAD | OPS_FLAG_LEFT_ALIGN)))
